@@ -1255,7 +1255,7 @@ void new_interactive (socket_fd_t socket_fd) {
     }
     else {
       /* first time allocation */
-      all_users = CALLOCATE (50, interactive_t *, TAG_USERS, "new_user_handler");
+      all_users = CALLOCATE (i + 50, interactive_t *, TAG_USERS, "new_user_handler"); /* the loop below fills i + 50 slots */
     }
     while (max_users < i + 50)
       all_users[max_users++] = 0;
